@@ -553,8 +553,10 @@ void LabeledDirectedGraph<EdgeLabel>::removeVertexFromEdgeList(
         edgeNumber--;
     }
 
-    for (VertexIndex i = 0; i < size; ++i)
+    for (VertexIndex i = 0; i < size; ++i) {
         removeEdge(i, vertex);
+        edgeLabels.erase({vertex, i});
+    }
 }
 
 } // namespace BaseGraph
